@@ -124,7 +124,7 @@ static void check_one(const unsigned char *in, size_t len, int e2e) {
         hx_buf rq = { 0 };
         hb_puts(&rq, "GET ");
         hb_put(&rq, in, len);
-        hb_puts(&rq, " HTTP/1.1\r\nHost: h\r\n\r\n");
+        hb_puts(&rq, (n_e2e & 1) ? " HTTP/1.1\r\nHost: h:8080\r\n\r\n" : " HTTP/1.1\r\nHost: h\r\n\r\n");
         htp_connp_req_data(c2, NULL, rq.p, rq.n);
         htp_tx_t *t2 = htp_list_get(c2->conn->transactions, 0);
         if (t2 && t2->parsed_uri_raw && t2->request_uri && bstr_len(t2->request_uri) == len) {
@@ -138,6 +138,27 @@ static void check_one(const unsigned char *in, size_t len, int e2e) {
             if (r2->fragment) { hb_puts(&k, "#"); app(&k, r2->fragment); }
             if ((k.n != len || memcmp(k.p, in, len) != 0) && !bracket_junk(in, len)) report("e2e_rejoin_mismatch", in, len, "tx->parsed_uri_raw of a request line does not re-join to the request target");
             hb_free(&k);
+            /* the numeric port of the URI belongs to the target's port text - also after the headers (a Host field with a port of its
+             * own, sent in every second run) have been processed */
+            if (t2->parsed_uri != NULL && t2->request_progress >= HTP_REQUEST_HEADERS) {
+                long expect2 = -1;
+                if (r2->port != NULL) {
+                    const unsigned char *pp = bstr_ptr(r2->port);
+                    size_t pl = bstr_len(r2->port), a = 0, e = pl;
+                    int inv = 0;
+                    while (a < e && (pp[a] == ' ' || pp[a] == '\t')) a++;
+                    while (e > a && (pp[e - 1] == ' ' || pp[e - 1] == '\t')) e--;
+                    if (a == e) inv = 1;
+                    unsigned long long v = 0;
+                    for (size_t i = a; i < e && !inv; i++) { if (pp[i] < '0' || pp[i] > '9') inv = 1; else { v = v * 10 + (unsigned) (pp[i] - '0'); if (v > 100000000ULL) v = 100000000ULL; } }
+                    if (!inv && v >= 1 && v <= 65535) expect2 = (long) v;
+                }
+                if (t2->parsed_uri->port_number != expect2) {
+                    char d2[200];
+                    snprintf(d2, sizeof d2, "after the request headers parsed_uri->port_number is %d, the target's port text gives %ld", t2->parsed_uri->port_number, expect2);
+                    report("e2e_port_number_after_headers", in, len, d2);
+                }
+            }
         }
         hb_free(&rq);
         htp_connp_destroy_all(c2);
